@@ -106,6 +106,10 @@ Probe == RunLetters(n, ProbeLetters, <<>>)
 Cfg == [n |-> NodeId, hb |-> HbInit, hc |-> HcInit]
 EmitEdge == hist = <<>> \/ PrintT(<<"EDGE", ToJson([c |-> Cfg, s |-> prev, e |-> hist[Len(hist)], d |-> View, p |-> Probe])>>)
 EmitWalk == Len(hist) < WalkLen \/ (PrintT(<<"WALK", ToJson([c |-> Cfg, h |-> hist, p |-> Probe])>>) /\ FALSE)
+\* saturation of the event counter (C11): scenarios far outside the exhaustive bound EvCap, evaluated on the reference from the
+\* initial state: first heartbeat of PumpNode, k periods of silence (PumpTime ticks each), two reads of the counter
+PumpLetters(node, time, k) == << <<"hb", node, 5>> >> \o [i \in 1..(time * k) |-> <<"tick">>] \o << <<"hbev", node>>, <<"hbev", node>>, <<"hblast", node>> >>
+EmitPump(node, time, counts) == \A k \in counts : PrintT(<<"BEH", ToJson([c |-> Cfg, h |-> RunLetters(n, PumpLetters(node, time, k), <<>>)])>>)
 \* VIEW of the model-checking configurations: TLC evaluates invariants only on states it has not seen before, and "seen" is
 \* decided on the VIEW; a step verdict kept in a ghost variable must therefore be part of it, or a violating edge INTO A KNOWN
 \* STATE would be discarded unexamined (the generation configurations keep the plain View: the verdict is not behaviour)
